@@ -181,6 +181,10 @@ def brief(o):
 
 def run_event(graph, ctx, idx):
     label, fn = graph.events[idx]
+    if os.environ.get("VERIF_DIRTY_HEAP", "1") != "0":
+        from mc.core import dirty_heap  # uninitialised memory is a source of nondeterminism the harness owns (see core.dirty_heap)
+
+        dirty_heap()
     try:
         return ("ok", observe(fn(ctx)))
     except Exception as e:  # noqa
